@@ -34,6 +34,7 @@ add_leg('C18', 'D_deadline_rearm', 1500, 30, 60000, 300)
 add_leg('C15', 'C15b', 4000, 60, 200000, 900)
 add_leg('C17', 'C17w', 3000, 60, 200000, 900)
 add_leg('C13', 'C13e', 3000, 60, 200000, 900)
+add_leg('C06', 'C06f', 3000, 40, 200000, 900)
 PROPS['C03']['legs']['quick'].append(dict(scenario='C03', runs=1600, budget=60, tag='sweep', params={'c03_sweep': 1}))
 PROPS['C03']['legs']['thorough'].append(dict(scenario='C03', runs=64000, budget=900, tag='sweep', params={'c03_sweep': 1}))
 def _c04_size(n, k):
@@ -62,7 +63,7 @@ def _c08_sweep(n, k):
 PROPS['C08']['legs']['quick'].append(dict(scenario='C08', runs=0, budget=300, tag='sweep', sweep=_c08_sweep(4, 2)))
 PROPS['C08']['legs']['thorough'].append(dict(scenario='C08', runs=0, budget=3000, tag='sweep', sweep=_c08_sweep(6, 3)))
 PROPS['C08']['level'] = 'fault_enumeration'
-_C09_SWEEP = 'for each base workload (one seed: configuration, workload, schedule): every crash kind {Close, Abort, transport read error, transport write error, conn.Close, two concurrent Close, Close after Abort} x crashed side {A, B} x every wire event (packet emission) of the fault-free reference pass of that seed as the crash point'
+_C09_SWEEP = 'for each base workload (one seed: configuration, workload, schedule): every crash kind {Close, Abort, transport read error, transport write error, conn.Close, two concurrent Close, Close after Abort} x crashed side {A, B} x every wire event (packet emission) of the fault-free reference pass of that seed as the crash point (every ceil(n/512)-th event, first and last included where the stride hits them, when the pass has n > 512 events); a base workload cut short by the wall-clock budget is not counted as enumerated'
 PROPS['C09']['legs']['quick'].append(dict(scenario='C09', runs=32, budget=300, tag='sweep', params={'crash_sweep': 1}, crash_sweep=_C09_SWEEP))
 PROPS['C09']['legs']['thorough'].append(dict(scenario='C09', runs=1600, budget=3000, tag='sweep', params={'crash_sweep': 1}, crash_sweep=_C09_SWEEP))
 PROPS['C09']['level'] = 'fault_enumeration'
@@ -106,7 +107,7 @@ MANIFEST_TEXT.update({
                 note=SIM_NOTE),
     'C06': dict(design_ref='DESIGN.md §5 C06',
                 technique='deterministic simulation: RefStream oracle per ordering/reliability policy on every read, per-TSN transmission counts and times on the wire',
-                text='Seeded exploration over ordered/unordered x reliable/rexmit/timed streams with DCEP messages, loss up to 60%; reads are attributed to unique writes (at most once, intact, order per policy), wire monitor bounds transmissions per TSN by the stream policy. Two recorded known findings (KF1, KF2). Evidence, not proof.',
+                text='Seeded exploration over ordered/unordered x reliable/rexmit/timed streams with DCEP messages, loss up to 60%; reads are attributed to unique writes (at most once, intact, order per policy), wire monitor bounds transmissions per TSN by the stream policy; a second leg (C06f) uses partially reliable streams only, with mostly fragmented messages, so that messages are partly in flight and partly pending while loss recovery marks chunks. Recorded known findings KF1, KF2, KF7, KF7b (the evidence counts the runs that hit them). Evidence, not proof.',
                 note=SIM_NOTE),
     'C07': dict(design_ref='DESIGN.md §5 C07',
                 technique='deterministic simulation: FORWARD-TSN content vs. set of abandoned chunks on the wire, tail messages and reliable canaries must still arrive (bounded), written = delivered + skipped',
